@@ -15,6 +15,7 @@
 #include "EbSystemResourceManager.h"
 #include "EbDefinitions.h"
 #include "EbThreads.h"
+#include "EbVerifHooks.h"
 
 static void svt_fifo_dctor(EbPtr p) {
     EbFifo *obj = (EbFifo *)p;
@@ -89,9 +90,11 @@ static EbErrorType svt_fifo_shutdown(EbFifo *fifo_ptr) {
     // Acquire lockout Mutex
     svt_block_on_mutex(fifo_ptr->lockout_mutex);
     fifo_ptr->quit_signal = EB_TRUE;
+    SVT_VERIF_EV("srm", fifo_ptr->queue_ptr->verif_res, "Shutdown", fifo_ptr->verif_index);
     // Release Mutex
     svt_release_mutex(fifo_ptr->lockout_mutex);
     //Wake up the waiting process if any
+    SVT_VERIF_EV("srm", fifo_ptr->queue_ptr->verif_res, "ShutPost", fifo_ptr->verif_index);
     svt_post_semaphore(fifo_ptr->counting_semaphore);
 
     return return_error;
@@ -223,6 +226,9 @@ static EbErrorType svt_muxing_queue_ctor(EbMuxingQueue *queue_ptr, uint32_t obje
                (EbObjectWrapper *)NULL,
                (EbObjectWrapper *)NULL,
                queue_ptr);
+#ifdef SVT_AV1_VERIF
+        queue_ptr->process_fifo_ptr_array[process_index]->verif_index = process_index;
+#endif
     }
 
     return return_error;
@@ -250,11 +256,13 @@ static EbErrorType svt_muxing_queue_assignation(EbMuxingQueue *queue_ptr) {
 
         // Put the object on the fifo
         svt_fifo_push_back(process_fifo_ptr, wrapper_ptr);
+        SVT_VERIF_EV("srm", queue_ptr->verif_res, "Assign", queue_ptr->verif_qid, process_fifo_ptr->verif_index, wrapper_ptr->verif_index);
 
         // Release the Process Fifo's Mutex
         svt_release_mutex(process_fifo_ptr->lockout_mutex);
 
         // Post the semaphore
+        SVT_VERIF_EV("srm", queue_ptr->verif_res, "SemPost", queue_ptr->verif_qid, process_fifo_ptr->verif_index);
         svt_post_semaphore(process_fifo_ptr->counting_semaphore);
     }
 
@@ -314,6 +322,7 @@ EbErrorType svt_object_release_enable(EbObjectWrapper *wrapper_ptr) {
     svt_block_on_mutex(wrapper_ptr->system_resource_ptr->empty_queue->lockout_mutex);
 
     wrapper_ptr->release_enable = EB_TRUE;
+    SVT_VERIF_EV("srm", wrapper_ptr->system_resource_ptr, "RelEnable", wrapper_ptr->verif_index, 1);
 
     svt_release_mutex(wrapper_ptr->system_resource_ptr->empty_queue->lockout_mutex);
 
@@ -340,6 +349,7 @@ EbErrorType svt_object_release_disable(EbObjectWrapper *wrapper_ptr) {
     svt_block_on_mutex(wrapper_ptr->system_resource_ptr->empty_queue->lockout_mutex);
 
     wrapper_ptr->release_enable = EB_FALSE;
+    SVT_VERIF_EV("srm", wrapper_ptr->system_resource_ptr, "RelEnable", wrapper_ptr->verif_index, 0);
 
     svt_release_mutex(wrapper_ptr->system_resource_ptr->empty_queue->lockout_mutex);
 
@@ -366,6 +376,7 @@ EbErrorType svt_object_inc_live_count(EbObjectWrapper *wrapper_ptr, uint32_t inc
     svt_block_on_mutex(wrapper_ptr->system_resource_ptr->empty_queue->lockout_mutex);
 
     wrapper_ptr->live_count += increment_number;
+    SVT_VERIF_EV("srm", wrapper_ptr->system_resource_ptr, "IncLive", wrapper_ptr->verif_index, increment_number, (int32_t)wrapper_ptr->live_count);
 
     svt_release_mutex(wrapper_ptr->system_resource_ptr->empty_queue->lockout_mutex);
 
@@ -407,6 +418,7 @@ static EbErrorType svt_object_wrapper_ctor(EbObjectWrapper *wrapper, EbSystemRes
 
 static void svt_system_resource_dctor(EbPtr p) {
     EbSystemResource *obj = (EbSystemResource *)p;
+    SVT_VERIF_EV("srm", obj, "Dtor", obj->object_total_count);
     EB_DELETE(obj->full_queue);
     EB_DELETE(obj->empty_queue);
     EB_DELETE_PTR_ARRAY(obj->wrapper_ptr_pool, obj->object_total_count);
@@ -459,6 +471,9 @@ EbErrorType svt_system_resource_ctor(EbSystemResource *resource_ptr, uint32_t ob
                object_creator,
                object_init_data_ptr,
                object_destroyer);
+#ifdef SVT_AV1_VERIF
+        resource_ptr->wrapper_ptr_pool[wrapper_index]->verif_index = wrapper_index;
+#endif
     }
 
     // Initialize the Empty Queue
@@ -466,8 +481,14 @@ EbErrorType svt_system_resource_ctor(EbSystemResource *resource_ptr, uint32_t ob
            svt_muxing_queue_ctor,
            resource_ptr->object_total_count,
            producer_process_total_count);
+#ifdef SVT_AV1_VERIF
+    resource_ptr->empty_queue->verif_res = resource_ptr;
+    resource_ptr->empty_queue->verif_qid = 0;
+    SVT_VERIF_EV("srm", resource_ptr, "Ctor", object_total_count, producer_process_total_count, consumer_process_total_count);
+#endif
     // Fill the Empty Fifo with every ObjectWrapper
     for (wrapper_index = 0; wrapper_index < resource_ptr->object_total_count; ++wrapper_index) {
+        SVT_VERIF_EV("srm", resource_ptr, "Fill", wrapper_index);
         svt_muxing_queue_object_push_back(resource_ptr->empty_queue,
                                           resource_ptr->wrapper_ptr_pool[wrapper_index]);
     }
@@ -478,6 +499,10 @@ EbErrorType svt_system_resource_ctor(EbSystemResource *resource_ptr, uint32_t ob
                svt_muxing_queue_ctor,
                resource_ptr->object_total_count,
                consumer_process_total_count);
+#ifdef SVT_AV1_VERIF
+        resource_ptr->full_queue->verif_res = resource_ptr;
+        resource_ptr->full_queue->verif_qid = 1;
+#endif
     } else {
         resource_ptr->full_queue = (EbMuxingQueue *)NULL;
     }
@@ -517,6 +542,7 @@ static EbErrorType svt_release_process(EbFifo *process_fifo_ptr) {
     svt_block_on_mutex(process_fifo_ptr->queue_ptr->lockout_mutex);
 
     svt_circular_buffer_push_front(process_fifo_ptr->queue_ptr->process_queue, process_fifo_ptr);
+    SVT_VERIF_EV("srm", process_fifo_ptr->queue_ptr->verif_res, "RelProc", process_fifo_ptr->queue_ptr->verif_qid, process_fifo_ptr->verif_index);
 
     svt_muxing_queue_assignation(process_fifo_ptr->queue_ptr);
 
@@ -544,6 +570,7 @@ EbErrorType svt_post_full_object(EbObjectWrapper *object_ptr) {
 
     svt_block_on_mutex(object_ptr->system_resource_ptr->full_queue->lockout_mutex);
 
+    SVT_VERIF_EV("srm", object_ptr->system_resource_ptr, "PostFull", object_ptr->verif_index);
     svt_muxing_queue_object_push_back(object_ptr->system_resource_ptr->full_queue, object_ptr);
 
     svt_release_mutex(object_ptr->system_resource_ptr->full_queue->lockout_mutex);
@@ -574,9 +601,14 @@ EbErrorType svt_release_object(EbObjectWrapper *object_ptr) {
         // Set live_count to EB_ObjectWrapperReleasedValue
         object_ptr->live_count = EB_ObjectWrapperReleasedValue;
 
+        SVT_VERIF_EV("srm", object_ptr->system_resource_ptr, "Release", object_ptr->verif_index, 1, (int32_t)object_ptr->live_count);
         svt_muxing_queue_object_push_front(object_ptr->system_resource_ptr->empty_queue,
                                            object_ptr);
     }
+#ifdef SVT_AV1_VERIF
+    else
+        SVT_VERIF_EV("srm", object_ptr->system_resource_ptr, "Release", object_ptr->verif_index, 0, (int32_t)object_ptr->live_count);
+#endif
 
     svt_release_mutex(object_ptr->system_resource_ptr->empty_queue->lockout_mutex);
 
@@ -606,6 +638,7 @@ EbErrorType svt_get_empty_object(EbFifo *empty_fifo_ptr, EbObjectWrapper **wrapp
 
     // Block on the counting Semaphore until an empty buffer is available
     svt_block_on_semaphore(empty_fifo_ptr->counting_semaphore);
+    SVT_VERIF_EV("srm", empty_fifo_ptr->queue_ptr->verif_res, "SemWait", 0, empty_fifo_ptr->verif_index);
 
     // Acquire lockout Mutex
     svt_block_on_mutex(empty_fifo_ptr->lockout_mutex);
@@ -618,6 +651,7 @@ EbErrorType svt_get_empty_object(EbFifo *empty_fifo_ptr, EbObjectWrapper **wrapp
 
     // Object release enable
     (*wrapper_dbl_ptr)->release_enable = EB_TRUE;
+    SVT_VERIF_EV("srm", empty_fifo_ptr->queue_ptr->verif_res, "PopEmpty", empty_fifo_ptr->verif_index, (*wrapper_dbl_ptr)->verif_index);
 
     // Release Mutex
     svt_release_mutex(empty_fifo_ptr->lockout_mutex);
@@ -648,15 +682,18 @@ EbErrorType svt_get_full_object(EbFifo *full_fifo_ptr, EbObjectWrapper **wrapper
 
     // Block on the counting Semaphore until an empty buffer is available
     svt_block_on_semaphore(full_fifo_ptr->counting_semaphore);
+    SVT_VERIF_EV("srm", full_fifo_ptr->queue_ptr->verif_res, "SemWait", 1, full_fifo_ptr->verif_index);
 
     // Acquire lockout Mutex
     svt_block_on_mutex(full_fifo_ptr->lockout_mutex);
 
     if (!full_fifo_ptr->quit_signal) {
         svt_fifo_pop_front(full_fifo_ptr, wrapper_dbl_ptr);
+        SVT_VERIF_EV("srm", full_fifo_ptr->queue_ptr->verif_res, "PopFull", full_fifo_ptr->verif_index, (*wrapper_dbl_ptr)->verif_index);
     } else {
         *wrapper_dbl_ptr = NULL;
         return_error     = EB_NoErrorFifoShutdown;
+        SVT_VERIF_EV("srm", full_fifo_ptr->queue_ptr->verif_res, "PopQuit", full_fifo_ptr->verif_index);
     }
 
     // Release Mutex
@@ -691,6 +728,7 @@ EbErrorType svt_get_full_object_non_blocking(EbFifo *          full_fifo_ptr,
         fifo_empty = svt_fifo_peak_front(full_fifo_ptr);
     else
         fifo_empty = EB_TRUE;
+    SVT_VERIF_EV("srm", full_fifo_ptr->queue_ptr->verif_res, "Peek", full_fifo_ptr->verif_index, fifo_empty == EB_TRUE);
 
     // Release Mutex
     svt_release_mutex(full_fifo_ptr->lockout_mutex);
